@@ -255,6 +255,7 @@ s = s.replace('  keep SyncReader\n', '  keep SyncReader Reader\n')
 s += '''
 unit get::Reader::poll_read
   file get.rs
+  flavours default linkto
   at impl:AsyncRead for Reader/poll_read
   inherent
   ret r
@@ -269,6 +270,24 @@ unit get::Reader::poll_read
       && final(buf)@.subrange(0, r->Ready_0->Ok_0 as int) == old(self).reader.fd@.content.subrange(old(self).reader.fd@.pos, old(self).reader.fd@.pos + r->Ready_0->Ok_0)
   ensures [C01.Reader.poll_read.eof]
     r is Ready && r->Ready_0 is Ok && r->Ready_0->Ok_0 == 0 && old(buf)@.len() > 0 ==> final(self).reader.fd@.pos == final(self).reader.fd@.content.len()
+
+unit get::Reader::poll_read#tokio
+  file get.rs
+  flavours tokio
+  at impl:AsyncRead for Reader/poll_read
+  inherent
+  ret r
+  props C01 C12 C20
+  requires
+    crate::content::read::areader_wf(old(self).reader)
+  ensures [C01.Reader.poll_read.hands_out_what_it_hashes]
+    crate::content::read::areader_wf(final(self).reader) && final(self).reader.fd@.content == old(self).reader.fd@.content
+      && final(self).reader.checker@.sri == old(self).reader.checker@.sri
+  ensures [C01.Reader.poll_read.bytes]
+    r is Ready && r->Ready_0 is Ok ==> old(self).reader.fd@.pos <= final(self).reader.fd@.pos
+      && final(buf)@.filled == old(buf)@.filled + old(self).reader.fd@.content.subrange(old(self).reader.fd@.pos, final(self).reader.fd@.pos)
+  ensures [C01.Reader.poll_read.eof]
+    r is Ready && r->Ready_0 is Ok && final(self).reader.fd@.pos == old(self).reader.fd@.pos && old(buf)@.cap > old(buf)@.filled.len() ==> final(self).reader.fd@.pos == final(self).reader.fd@.content.len()
 '''
 open(os.path.join(HERE, 'get.vc'), 'w').write(s)
 print('wrote get.vc', len(s.split('\n')), 'lines')
